@@ -200,8 +200,11 @@ fn cli_interrupts(rep: &Report, n: usize, seed: u64) {
             }
             _ => vec![b'x'; 700],
         };
+        // recognisable bytes on both sides of the end of memory (the loader wraps at 1 MiB): 0xFFFF0.. and 0..
+        let top_text = "ABCDEFGHIJKLMNOPqrstuvwxyz0123456789abcdefghijklmnop";
         let src = format!(
-            "start:\nmov ax, {seg}\nmov ds, ax\nmov es, ax\nmov bx, {off}\nmov byte [bx], {cap}\nmov dx, {off}\nmov bp, {off}\nmov cx, {cx}\nmov ah, {ah}\nmov al, 65\nint {int}\nmov si, 1\n",
+            "set 65535\ndb \"{top}\"\nstart:\nmov ax, {seg}\nmov ds, ax\nmov es, ax\nmov bx, {off}\nmov byte [bx], {cap}\nmov dx, {off}\nmov bp, {off}\nmov cx, {cx}\nmov ah, {ah}\nmov al, 65\nint {int}\nmov si, 1\n",
+            top = top_text,
             seg = seg,
             off = off,
             cap = cap,
@@ -226,6 +229,37 @@ fn cli_interrupts(rep: &Report, n: usize, seed: u64) {
                 witness: format!("{{\"kind\": \"cli\", \"source\": {}, \"stdin\": {}, \"status\": {}}}", json_str(&src), json_bytes(&stdin), json_str(&out.status_str())),
                 core_item: if core { Some(format!("{}|{:?}|{:?}", i, out.code, out.signal)) } else { None },
             });
+        }
+        // INT 10h/13h reads its string modulo 2^20: what it writes is the wrapped byte sequence, not a cut-off one
+        if out.clean_exit() && int_no == 0x10 && ah == 0x13 {
+            let p = parse_records(&out.stdout);
+            if let Some(k) = p.recs.iter().position(|r| r.line.starts_with("int ")) {
+                if k + 1 < p.recs.len() {
+                    let r = &p.recs[k];
+                    let mut model = vec![0u8; 1 << 20];
+                    for (j, b) in top_text.bytes().enumerate() {
+                        model[(0xFFFF0 + j) % (1 << 20)] = b;
+                    }
+                    // the program's own store of the capacity byte
+                    model[(seg as usize * 16 + off as usize) % (1 << 20)] = cap;
+                    let mut exp: Vec<u8> = vec![b' '; (r.regs[DX] & 0xFF) as usize];
+                    let s0 = r.regs[ES] as usize * 16 + r.regs[BP] as usize;
+                    for j in 0..r.regs[CX] as usize {
+                        exp.push(model[(s0 + j) % (1 << 20)]);
+                    }
+                    rep.count("INT 10h/13h outputs compared with the wrapped byte sequence", 1);
+                    // (bytes >= 0x80 may appear raw or as the UTF-8 of that code point)
+                    if !crate::c18::bytes_match(&exp, &p.segs[k + 1]) {
+                        let pos = (0..exp.len().min(p.segs[k + 1].len())).find(|x| exp[*x] != p.segs[k + 1][*x]).unwrap_or(exp.len().min(p.segs[k + 1].len()));
+                        rep.fail(Failure {
+                            sig: "total:int10-ah13:string-not-wrapped".into(),
+                            what: "C09 CLI: INT 10h AH=13h does not write the bytes at (ES*16+BP+i) mod 2^20".into(),
+                            witness: format!("{{\"kind\": \"cli\", \"source\": {}, \"expected_bytes\": {}, \"observed_bytes\": {}, \"first_difference\": {}}}", json_str(&src), exp.len(), p.segs[k + 1].len(), pos),
+                            core_item: if core { Some(format!("{}|wrap", i)) } else { None },
+                        });
+                    }
+                }
+            }
         }
         if i == 1 {
             rep.sample(format!("cli: int {:02x}h ah={:02x}h with DS:DX={:04x}:{:04x} cap={} stdin {} bytes -> {}", int_no, ah, seg, off, cap, stdin.len(), out.status_str()));
